@@ -34,6 +34,7 @@ type c13Script struct {
 	slow               time.Duration
 	rmFailFrom, rmFailTo time.Duration // lock removes in this window fail
 	removeAt           time.Duration // somebody else removes all lock files (0 = never)
+	idempotentRemove   bool          // removing a file that does not exist is not an error (as on object stores)
 	unlockAt           time.Duration
 }
 
@@ -87,6 +88,9 @@ func (b *c13Backend) Remove(ctx context.Context, h backend.Handle) error {
 		err = fmt.Errorf("verif: injected remove failure")
 	} else {
 		err = b.Backend.Remove(ctx, h)
+		if err != nil && b.sc.idempotentRemove && b.Backend.IsNotExist(err) {
+			err = nil
+		}
 	}
 	b.rec("remove", I64(start), I64(b.us()), B(err == nil), h.Name[:8])
 	return err
@@ -269,7 +273,7 @@ func c13Stream(h *H, t *testing.T) {
 			return lo + time.Duration(h.Intn(int((hi-lo)/unit)+1))*unit
 		}
 		kind := ""
-		switch h.Intn(8) {
+		switch h.Intn(10) {
 		case 0:
 			kind = "healthy"
 		case 1:
@@ -304,6 +308,25 @@ func c13Stream(h *H, t *testing.T) {
 				sc.rmFailFrom = rnd(0, ert)
 				sc.rmFailTo = sc.rmFailFrom + rnd(eri, ert)
 			}
+		case 8:
+			// replacement written and adopted, old file not removed: refreshLocks gets an error and the
+			// monitor is never told - it has to force a refresh of a lock that is in fact fresh
+			kind = "removes-fail"
+			sc.rmFailFrom = rnd(0, eri)
+			sc.rmFailTo = sc.rmFailFrom + rnd(ert, 2*ert)
+		case 9:
+			// an outage that swallows every regular refresh of one refreshability period and ends just
+			// before the monitor forces a refresh: the forced refresh runs on a working backend, with the
+			// lock file still there (must succeed) or removed by somebody else meanwhile (must cancel)
+			kind = "outage-ends-before-forced-refresh"
+			k := time.Duration(h.Intn(3))
+			nticks := (ert / eri) // regular ticks inside one period
+			sc.failFrom = k*eri + rnd(unit, eri-unit)
+			sc.failTo = (k+nticks)*eri + rnd(unit, ert-nticks*eri-unit)
+			if h.Intn(2) == 0 {
+				kind = "removed-outage-ends-before-forced-refresh"
+				sc.removeAt = rnd(sc.failFrom, sc.failTo)
+			}
 		case 7:
 			kind = "short-outages-and-slow"
 			sc.failFrom = rnd(0, ert)
@@ -318,6 +341,7 @@ func c13Stream(h *H, t *testing.T) {
 		if h.Intn(8) == 0 {
 			sc.unlockAt = rnd(eri/2, ert) // early unlock
 		}
+		sc.idempotentRemove = h.Intn(2) == 0
 		base := mem.New()
 		repository.TestRepositoryWithBackend(TB, base, 0, repository.Options{})
 		var out [][]string
@@ -327,7 +351,7 @@ func c13Stream(h *H, t *testing.T) {
 		})
 		h.Case("script")
 		d := func(x time.Duration) string { return I64(x.Microseconds()) }
-		h.Rec("params", d(eri), d(ert), kind, B(ri == 0))
+		h.Rec("params", d(eri), d(ert), kind, B(ri == 0), B(sc.idempotentRemove))
 		failTo := sc.failTo
 		if failTo > 100*time.Hour {
 			failTo = 100 * time.Hour
